@@ -204,9 +204,7 @@ impl Renamer {
                             source_name,
                             match_suffix,
                         )?;
-                        let new_rdlen = 2 + renamed_packet.len()
-                            - renamed_packet_name_offset
-                            - DNS_RR_HEADER_SIZE;
+                        let new_rdlen = 2 + renamed_packet.len() - renamed_packet_name_offset;
                         BigEndian::write_u16(
                             &mut renamed_packet[renamed_packet_offset_data + DNS_RR_RDLEN_OFFSET..],
                             new_rdlen as u16,
@@ -240,8 +238,7 @@ impl Renamer {
                         let soa_metadata_offset = name2_offset + name2_len;
                         renamed_packet
                             .extend(&raw.packet[soa_metadata_offset..soa_metadata_offset + 20]);
-                        let new_rdlen =
-                            renamed_packet.len() - renamed_packet_name1_offset - DNS_RR_HEADER_SIZE;
+                        let new_rdlen = renamed_packet.len() - renamed_packet_name1_offset;
                         BigEndian::write_u16(
                             &mut renamed_packet[renamed_packet_offset_data + DNS_RR_RDLEN_OFFSET..],
                             new_rdlen as u16,
